@@ -41,14 +41,14 @@ func genCommandTable(args []string) {
 	sort.Strings(ks)
 	var l []string
 	for _, k := range ks {
-		l = append(l, fmt.Sprintf("(%s, %v)", coqStr(k), cm[k]))
+		l = append(l, fmt.Sprintf("(%s, %v)", c19CoqStr(k), cm[k]))
 	}
 	sb.WriteString("Definition pprof_commands : list (string * bool) := [\n  " + strings.Join(l, ";\n  ") + "].\n\n")
 	hk := driver.VerifConfigHelpKeys()
 	sort.Strings(hk)
 	l = nil
 	for _, k := range hk {
-		l = append(l, coqStr(k))
+		l = append(l, c19CoqStr(k))
 	}
 	sb.WriteString("Definition config_help_keys : list string := [\n  " + strings.Join(l, "; ") + "].\n")
 	if len(args) > 0 {
@@ -473,7 +473,7 @@ func runC10(c *Ctx) {
 			}
 		}
 		unchanged := Render(DumpProfile(p)) == p0dump
-		in := L(S("sess"), pfTable(strs), Ss(types), S(p.DefaultSampleType), cfgTerm(cfg0), Ss(lines))
+		in := L(S("sess"), c19PfTable(strs), Ss(types), S(p.DefaultSampleType), cfgTerm(cfg0), Ss(lines))
 		obs := L(cfgTerm(ui.start), L(lineT...), Bool(unchanged))
 		c.Case("session", in, obs, nt, "op:sess")
 	}
@@ -633,7 +633,7 @@ func runC10Web(c *Ctx, fields []driver.VerifField) {
 		}
 		unchanged := Render(DumpProfile(p)) == p0dump
 		restoreG()
-		in := L(S("web"), pfTable(strs), cfgTerm(cfg0), L(rT...), Bool(concurrent))
+		in := L(S("web"), c19PfTable(strs), cfgTerm(cfg0), L(rT...), Bool(concurrent))
 		c.Case("web", in, L(L(oT...), Bool(cfgSame), Bool(unchanged)), true, "op:web", fmt.Sprintf("concurrent:%v", concurrent))
 	}
 	c.Extra["web_nondeterministic_outputs_skipped"] = flaky
